@@ -10,6 +10,7 @@ from c01_solvers import DROP_IO, SIG4
 from c01_solvers2 import (ORCH_H, A_HANDLES, SIDE_RULES, PSPMV_RULE, UF_DECL, UF_TERN, UF_ASSIGN_LV, SIG4G, basis_rules,
                           SCALAR_RULES, GM_SCALAR_ATOM, GM_SC_KEEP, GMRES_MGS, GMRES_ROT, GMRES_BS1, GMRES_BS2, GM_NOT_DECIDED)
 
+KISSAT = ['--external-sat-solver', 'kissat']
 # scalar-valued operands of comparisons: the names of c01_solvers2 plus the FGMRES form  (norm_r = norm(<vector>)) < eps
 GM3_ATOM = r'(?:\(\w+ = norm\((?:[^()]|\([^()]*\))*\)\)|' + GM_SCALAR_ATOM[3:]
 # assignments to any lvalue whose right-hand side contains a binary arithmetic operator -- as UF_ASSIGN_LV of c01_solvers2, but never the
@@ -136,8 +137,8 @@ fgmres = Unit(
                              Loop(r'for\(unsigned k = 0; k < j', GMRES_ROT, prefix=True),
                              Loop(r'for \(unsigned i = j; i --> 0', GMRES_BS1, prefix=True),
                              Loop(r'for \(unsigned k = 0; k < i', GMRES_BS2, prefix=True)])},
-    template=FGMRES_T, enforce='f_fgmres', replace=ORCH_H, mode='inductive', obj_bits=12, replay='solvers', timeout=600,
-    cover=False,
+    template=FGMRES_T, enforce='f_fgmres', replace=ORCH_H, mode='inductive', obj_bits=12, replay='solvers', timeout=600, solver=KISSAT,
+    cover=True,
     variants=[{}, {'VARIANT_CONVERGED_GUESS': 1, 'CXC_NOCOVER': 1}],
     assumptions=A_HANDLES + FGM_A,
     not_decided=GM_NOT_DECIDED,
@@ -409,7 +410,6 @@ class ReplaceLoopStmt(object):
 
 
 # measured: minisat does not finish either unit in 600 s (one invariant-step obligation of the bi-orthogonalisation loop alone > 300 s), kissat needs 66 s / 132 s
-KISSAT = ['--external-sat-solver', 'kissat']
 class ReplaceRegion(object):
     """early rule: the text from the first match of `start` up to (excluding) the first later match of `end` is replaced by `repl`."""
     early = True
@@ -893,9 +893,11 @@ void h_f_bicgstabl(void) { const bicgstabl *self; const mat *A; const precond *P
 BL_MAIN = r"""
 __CPROVER_assigns(iter, rho0, alpha, omega, zeta, rnmax_computed, rnmax_true, g_thrown, *x_p, *self->X, *self->B, *self->T, gs, gy)
 __CPROVER_loop_invariant(iter <= prm.maxiter + ((size_t)L - 1) && g_thrown == 0 && BL_VEC_KEEP && BL_RES && gs.bas.upto[B_R] >= 1 && gs.bas.upto[B_U] >= 1)
-__CPROVER_loop_invariant(gs.norm.calls == 2 && gs.norm.id0 == 1 && gs.clear.calls == 2 && zeta == gs.norm.val)
+__CPROVER_loop_invariant(gs.norm.calls == 2 && gs.norm.id0 == 1 && zeta == gs.norm.val)
 __CPROVER_loop_invariant(iter == 0 ? (zeta == g_norm_in1 && gs.norm.id == 5 && gs.norm.ver == self->B->version && gs.lc.calls == 0 && self->X->version == g0.Xv0 + 1)
-                                   : (gs.norm.id == BAS_ID(B_R) && gs.norm.ix == 0 && gs.norm.ver == gs.bas.writes[B_R]))
+                                   : (gs.norm.id == BAS_ID(B_R) && gs.norm.ix == 0))
+/* C01: the norm carried in zeta is the norm of R[0] in its current state (no write to R since it was evaluated) */
+__CPROVER_loop_invariant(iter > 0 ==> gs.norm.ver == gs.bas.writes[B_R])
 #ifndef VARIANT_DELTA
 __CPROVER_loop_invariant(x_p->version == g0.xv0)
 #endif
@@ -1017,6 +1019,23 @@ __CPROVER_loop_invariant(0 <= i && i <= j + 1 && j < L && gs.bas.upto[B_R] >= (s
 __CPROVER_loop_invariant(gs.ax.vidy == 4 && gs.ax.vidx == BAS_ID(B_U) && gs.ax.vix == 0 && gs.ax.vb == one && gs.ax.va == alpha)
 __CPROVER_decreases(j + 1 - i)
 """
+# same body, same contract, the other half of the case split: prm.delta > 0 (residual refresh).  The unchanged code FAILS the clause "the norm reported is the norm
+# of R[0] in its final state" here (candidate defect, see the report): after  zeta = norm(*R[0])  the refresh overwrites R[0] with B - (P) A X but zeta is not
+# re-evaluated; when the loop then ends (budget exhausted, or zeta < eps) the number returned is the norm of the recursively updated residual that was just discarded.
+bicgstabl_delta = Unit(
+    name='solver_bicgstabl_delta', props=['C01', 'C15', 'C10'],
+    functions=['solver::bicgstabl<Backend>::operator()(A, P, rhs, x)'],
+    desc='BiCGStab(L) solve body with prm.delta > 0 (residual refresh / "accurate update"); same contract as solver_bicgstabl except that x may also be advanced by the refresh',
+    cuts={'body': bl_body_cut(BL_LOOPS)},
+    template=BL_T.replace('f_bicgstabl', 'f_bicgstabl_delta'), enforce='f_bicgstabl_delta', replace=ORCH_H + ['bh_lin_comb2', 'f_bicg', 'f_poly'], mode='inductive', obj_bits=12,
+    replay='solvers', timeout=600, solver=KISSAT, cover=False,
+    variants=[{'VARIANT_DELTA': 1}],
+    assumptions=BL_ASSUME[:-1], not_decided=BL_NOT_DECIDED,
+)
+# not part of UNITS: on the unchanged tree this unit reports a VIOLATION (the candidate defect above); VERIF_CANDIDATES=1 adds it
+import os as _os
+CANDIDATE_UNITS = [bicgstabl_delta]
+
 BLHPP = 'amgcl/solver/bicgstabl.hpp'
 bicgstabl_j = Unit(
     name='solver_bicgstabl_bicg', props=['C01', 'C15', 'C10'],
@@ -1030,8 +1049,97 @@ bicgstabl_j = Unit(
                        rules=[PSPMV_RULE] + basis_rules('R|U') + BL_TAIL,
                        uf=[UF_DECL, UF_ASSIGN_LV3],
                        loops=[Loop(r'for\(int i = 0;', BJ_I1, nth=0, prefix=True), Loop(r'for\(int i = 0;', BJ_I2, nth=1, prefix=True)])},
-    template=BL_J_T, enforce='f_bicg', replace=ORCH_H, mode='inductive', obj_bits=12, timeout=600, solver=KISSAT, cover=False, loop_contracts=True,
+    template=BL_J_T, enforce='f_bicg', replace=ORCH_H, mode='inductive', obj_bits=12, timeout=600, solver=KISSAT, cover=True, loop_contracts=True,
     assumptions=BL_ASSUME, not_decided=BL_NOT_DECIDED,
+)
+
+# cover location: the only line without a reachable location is the closing brace that follows the unconditional `goto done;`
+bicgstabl_j.cover_exempt = r'^\s*\}\s*$'
+
+# ---------------------------------------------------------------------------- BiCGStab(L): polynomial part
+BL_P_T = BL_COMMON + r"""
+#undef CXC_THROW_RET
+#define CXC_THROW_RET ((pret){omega})
+V __CPROVER_uninterpreted_real(V);
+#define std_real(a) __CPROVER_uninterpreted_real((V)(a))
+/* MZa(i, j), MZb(i, j): subscripts against the (L+1) x (L+1) allocation */
+static inline size_t mz_wr(long i, long j)
+{
+  __CPROVER_assert(i >= 0 && j >= 0 && (size_t)i < gs_hdim[0] && (size_t)j < gs_hdim[1], "safety.idx. MZa / MZb subscript within the (L+1) x (L+1) allocation (write)");
+  return 0;
+}
+static inline size_t mz_rd(long i, long j)
+{
+  __CPROVER_assert(i >= 0 && j >= 0 && (size_t)i < gs_hdim[0] && (size_t)j < gs_hdim[1], "safety.idx. MZa / MZb subscript within the (L+1) x (L+1) allocation (read)");
+  gs.sc.cell = nondet_V();
+  return 0;
+}
+/* std::copy(MZa.data(), MZa.data() + MZa.size(), MZb.data()): both have the same (L+1) x (L+1) allocation */
+#define MZ_COPY() ((void)0)
+/* amgcl::detail::QR<coef_type>::solve(rows, cols, MZa.stride(0), MZa.stride(1), &MZa(ai, aj), &MZb(bi, bj), &Y[xoff], computed)  (A-qr): factorises the
+ * rows x cols block of MZa that starts at (ai, aj) in place, reads `rows` consecutive entries of MZb from (bi, bj) on, writes `cols` entries of Y from xoff on */
+static inline void qr_solve(long rows, long cols, long ai, long aj, long bi, long bj, int xarr, long xoff, _Bool computed)
+{
+  __CPROVER_assert(rows >= 1 && cols >= 1 && rows >= cols, "safety. QR::solve is called with a non-empty system, rows >= cols");
+  __CPROVER_assert(ai >= 0 && aj >= 0 && (size_t)(ai + rows) <= gs_hdim[0] && (size_t)(aj + cols) <= gs_hdim[1], "safety.idx. the block of MZa given to QR::solve lies within the allocation");
+  __CPROVER_assert(bi >= 0 && bj >= 0 && (size_t)bi < gs_hdim[0] && (size_t)(bj + rows) <= gs_hdim[1], "safety.idx. the right-hand side entries of MZb read by QR::solve lie within the allocation");
+  __CPROVER_assert((xarr == SC_Y0 || xarr == SC_YL) && xoff >= 0 && (size_t)(xoff + cols) <= gs_sclen[xarr], "safety.idx. the solution entries written by QR::solve lie within Y0 / YL");
+  if (xoff == 0) gy.first[xarr - SC_Y0] = 1;
+  if (xoff <= 1 && (size_t)(xoff + cols) + 1 >= gs_sclen[xarr]) gy.mid[xarr - SC_Y0] = 1;
+  if ((size_t)(xoff + cols) == gs_sclen[xarr]) gy.last[xarr - SC_Y0] = 1;
+}
+pret f_poly(const bicgstabl *self)
+__CPROVER_requires(__CPROVER_is_fresh(self, sizeof(*self)))
+/* C15: Y0, YL hold whatever an earlier pass / call left there */
+__CPROVER_requires(!gy.first[0] && !gy.first[1] && !gy.mid[0] && !gy.mid[1] && !gy.last[0] && !gy.last[1])
+POLY_CONTRACT
+{
+  const bl_params prm = self->prm;
+  V *const Y0 = &gs.sc.cell, *const YL = &gs.sc.cell, *const MZad = &gs.sc.cell, *const MZbd = &gs.sc.cell;
+  V omega = nondet_V();      /* the local of operator() the region writes */
+/*@CUT:consts@*/
+/*@CUT:poly@*/
+  return (pret){omega};
+}
+void h_f_poly(void) { const bicgstabl *self; f_poly(self); }
+"""
+def _qr(m):
+    return 'qr_solve(%s, %s, %s, %s, SC_%s, %s, %s)' % (m.group(1).strip(), m.group(2).strip(), m.group(3), m.group(4), m.group(5), m.group(6), m.group(7) or '0')
+BL_P_RULES = [
+    Rule(r'\bqr\.solve\(\s*([^,]+),\s*([^,]+),\s*MZa\.stride\(0\),\s*MZa\.stride\(1\),\s*&MZa\(([^()]*)\),\s*&MZb\(([^()]*)\),\s*&(Y0|YL)\[([^\]]+)\](?:,\s*/\*computed=\*/(\w+))?\)',
+         _qr, None, flags=_re.M | _re.S, why='QR::solve call -> footprint model (block of MZa, entries of MZb, entries of Y0 / YL)'),
+    Rule(r'\bstd_copy\(MZa\.data\(\), MZa\.data\(\) \+ MZa\.size\(\), MZb\.data\(\)\);', 'MZ_COPY();', None, why='std::copy of the whole of MZa to MZb'),
+    COMPOUND,
+    Rule(r'\b(MZa|MZb)\(([^()]*)\)\s*=(?!=)', r'\1d[mz_wr(\2)] =', None, why='MZ(i,j) = .. is a write (index check)'),
+    Rule(r'\b(MZa|MZb)\(([^()]*)\)', r'\1d[mz_rd(\2)]', None, why='MZ(i,j) read (index check)'),
+]
+def _rng(lo, hi, extra=''):
+    return "\n__CPROVER_loop_invariant(%s && %s%s)\n" % (lo, hi, extra)
+BP_I1 = "\n__CPROVER_assigns(i, gs.sc)" + _rng('0 <= i', 'i <= L + 1') + "__CPROVER_decreases(L + 1 - i)\n"
+BP_J1 = "\n__CPROVER_assigns(j, gs.sc)" + _rng('0 <= j', 'j <= i + 1', ' && 0 <= i && i <= L') + "__CPROVER_decreases(i + 1 - j)\n"
+BP_J2 = "\n__CPROVER_assigns(j, gs.sc)" + _rng('i + 1 <= j', 'j <= L + 1', ' && 0 <= i && i <= L') + "__CPROVER_decreases(L + 1 - j)\n"
+BP_I3 = "\n__CPROVER_assigns(i, dot0, dot1, dotA, gs.sc)" + _rng('0 <= i', 'i <= L + 1') + "__CPROVER_decreases(L + 1 - i)\n"
+BP_J3 = "\n__CPROVER_assigns(j, s0, sL, gs.sc)" + _rng('0 <= j', 'j <= L + 1', ' && 0 <= i && i <= L') + "__CPROVER_decreases(L + 1 - j)\n"
+BP_I4 = "\n__CPROVER_assigns(i, gs.sc, gy)" + _rng('0 <= i', 'i <= L + 1', ' && Y_FULL(SC_Y0) && Y_FULL(SC_YL)') + "__CPROVER_decreases(L + 1 - i)\n"
+BP_H = "\n__CPROVER_assigns(h, omega, gs.sc)" + _rng('0 <= h', 'h <= L') + "__CPROVER_decreases(h)\n"
+UF_TERN_ELSE = UF(r'\?[^;:]*:\s*(?P<e>[^;:?]+);', None)
+bicgstabl_p = Unit(
+    name='solver_bicgstabl_poly', props=['C01', 'C15', 'C10'],
+    functions=['solver::bicgstabl<Backend>::operator()(A, P, rhs, x) -- the polynomial part (MZa = R^H R, its symmetrisation, the QR solves for Y0 / YL, the convex combination, omega)'],
+    desc='BiCGStab(L), the polynomial part of a pass: every subscript of MZa, MZb (including the blocks and rows handed to QR::solve), Y0, YL within the (L+1) x (L+1) / L+1 allocation; '
+         'R[0..L] only read; Y0 (and YL, when used) completely written in this pass before an entry is read; Y0 complete on exit (it feeds the three lin_comb updates); zero omega throws',
+    cuts={'consts': Cut(BLHPP, r'static const coef_type one  = ', kind='region', end=r'ios_saver'),
+          'poly': Cut(BLHPP, r'for\(int i = 0;', kind='region', end=r'backend::lin_comb\(', nth=3,
+                      rules=BL_P_RULES + basis_rules('R') + BL_Y_RULES + BL_TAIL,
+                      uf=[UF_DECL, UF_TERN_ELSE, UF_TERN, UF_ASSIGN_LV3, UF(r'\]\s=\s(?P<e>-\w+);', None)],
+                      loops=[Loop(r'for\(int i = 0;', BP_I1, nth=0, prefix=True), Loop(r'for\(int j = 0;', BP_J1, nth=0, prefix=True),
+                             Loop(r'for \(int i = 0;', BP_I1, nth=0, prefix=True), Loop(r'for \(int j = i\+1;', BP_J2, prefix=True),
+                             Loop(r'for\(int i = 0;', BP_I3, nth=1, prefix=True), Loop(r'for\(int j = 0;', BP_J3, nth=1, prefix=True),
+                             Loop(r'for \(int i = 0;', BP_I4, nth=1, prefix=True), Loop(r'for\(int h = L;', BP_H, prefix=True)])},
+    template=BL_P_T, enforce='f_poly', replace=ORCH_H, mode='inductive', obj_bits=12, timeout=600, cover=True, loop_contracts=True,
+    assumptions=BL_ASSUME + ['A-qr: amgcl::detail::QR::solve touches exactly the rows x cols block of its matrix argument (given strides), `rows` consecutive entries of its '
+                             'right-hand side and `cols` entries of its solution argument (qr.hpp:257-310); it is not under contract here'],
+    not_decided=BL_NOT_DECIDED,
 )
 
 # ---------------------------------------------------------------------------- make_solver (call level) and the 3-argument solver overloads
@@ -1196,4 +1304,6 @@ def overload3(name, src, sig):
 ov3_units = [overload3('fgmres', 'amgcl/solver/fgmres.hpp', SIG3G), overload3('lgmres', 'amgcl/solver/lgmres.hpp', SIG3G),
              overload3('idrs', 'amgcl/solver/idrs.hpp', SIG3G), overload3('bicgstabl', 'amgcl/solver/bicgstabl.hpp', SIG3)]
 
-UNITS = [fgmres, lgmres, idrs, idrs_k, bicgstabl, bicgstabl_j, ms4, ms2, msapply] + ov3_units
+UNITS = [fgmres, lgmres, idrs, idrs_k, bicgstabl, bicgstabl_j, bicgstabl_p, ms4, ms2, msapply] + ov3_units
+if _os.environ.get('VERIF_CANDIDATES'):
+    UNITS += CANDIDATE_UNITS
